@@ -441,18 +441,21 @@ class StmtOps:
                                                        mk_eq(mk_select(arr, 'r'), mk_select(old, 'r')))
             st.oblige(goal, '%s: attribute %s of objects that existed before the loop changes only where the loop says so' % (what, attr),
                       node.lineno, kind='invariant')
-        if st.seqh is not None and head.seqh is not None and st.seqh != head.seqh:
+        head_seqh = head.seqh if head.seqh is not None else getattr(st.decls, 'base_seq', None)
+        if st.seqh is not None and head_seqh is not None and st.seqh != head_seqh:
             excl = [mk_not(mk_eq('r', l)) for l in lists]
             bound = self.alloc0 if 'SEQ' in newattrs else entry_alloc
             goal = "(forall ((r Int)) %s)" % mk_implies(mk_and(mk_lt('r', bound), *excl),
-                                                       mk_eq(mk_select(st.seqh, 'r'), mk_select(head.seqh, 'r')))
+                                                       mk_eq(mk_select(st.seqh, 'r'), mk_select(head_seqh, 'r')))
             st.oblige(goal, '%s: lists that existed before the loop change only where the loop says so' % what, node.lineno, kind='invariant')
-        if st.ddom is not None and head.ddom is not None and (st.ddom != head.ddom or st.dval != head.dval):
+        head_ddom = head.ddom if head.ddom is not None else getattr(st.decls, 'base_ddom', None)
+        head_dval = head.dval if head.dval is not None else getattr(st.decls, 'base_dval', None)
+        if st.ddom is not None and head_ddom is not None and (st.ddom != head_ddom or st.dval != head_dval):
             excl = [mk_not(mk_eq('r', d)) for d in dicts]
             goal = "(forall ((r Int)) %s)" % mk_implies(
                 mk_and(mk_lt('r', entry_alloc), *excl),
-                mk_and(mk_eq(mk_select(st.ddom, 'r'), mk_select(head.ddom, 'r')),
-                       mk_eq(mk_select(st.dval, 'r'), mk_select(head.dval, 'r'))))
+                mk_and(mk_eq(mk_select(st.ddom, 'r'), mk_select(head_ddom, 'r')),
+                       mk_eq(mk_select(st.dval, 'r'), mk_select(head_dval, 'r'))))
             st.oblige(goal, '%s: dicts that existed before the loop change only where the loop says so' % what, node.lineno, kind='invariant')
         listed = {it[6:].partition(':')[0] for it in items if it.startswith('ghost:')}
         for g, v in st.ghost.items():
@@ -499,6 +502,8 @@ class StmtOps:
                 a, f = it[5:].split('@', 1)
                 famwhole.setdefault(a, []).append(f)
                 covered.add(a)          # the body's syntactic stores of this attribute are stores on that family (frame-checked)
+            elif it.startswith('new:') and it != 'new:SEQ':
+                covered.add(it[4:])     # stores of this attribute hit only objects allocated by this function (frame-checked)
         whole = set(sorted(stored_attrs(body) - covered)) | {it[5:] for it in items if it.startswith('heap:') and '@' not in it}
         self.havoc_modifies(items, st.env)
         self.havoc_heap(sorted(stored_attrs(body) - covered))
